@@ -12,6 +12,8 @@ package main
 //     connection_manager routers + server routers via SetRouter, SetExtend) -> transferConfig (the persisted file)
 //     -> Load(that file) -> ... -> transferConfig
 //   F1  the second dump equals the first as canonical JSON (name-keyed lists sorted)
+//   F3  the two LOADED configurations are compared structurally (every field MOSN uses incl. json:"-" ones, shadow
+//       copies that a MarshalJSON overwrites excluded): a change that both dumps hide shows up here
 //   F2  load(dump(load j)) is equivalent to load j: both are normalised by the defaults the initialisation applies
 //       (cluster defaults, listener name, deprecated routers) and compared as canonical typed JSON - a field that
 //       the effective config drops, defaults differently or re-types shows up here
@@ -127,6 +129,16 @@ func initEffective(cfg *v2.MOSNConfig) {
 
 // normalised: canonical typed JSON of a loaded config after the defaults of the initialisation
 func normalised(cfg *v2.MOSNConfig) string {
+	c := normaliseCfg(cfg)
+	b, err := json.Marshal(c)
+	if err != nil {
+		return "marshal-error:" + err.Error()
+	}
+	return canonJSON(b)
+}
+
+// normaliseCfg: a loaded configuration after the defaults of the initialisation, name-keyed lists deduplicated and sorted, inline mode
+func normaliseCfg(cfg *v2.MOSNConfig) v2.MOSNConfig {
 	c := *cfg
 	// compare item by item: path (directory) mode is turned into inline mode, so that every cluster and every
 	// virtual host that was loaded from the directory is part of the compared document
@@ -179,17 +191,23 @@ func normalised(cfg *v2.MOSNConfig) string {
 			sc.Routers = append(sc.Routers, r)
 		}
 	}
-	b, err := json.Marshal(c)
-	if err != nil {
-		return "marshal-error:" + err.Error()
+	sort.Slice(c.ClusterManager.Clusters, func(i, j int) bool { return c.ClusterManager.Clusters[i].Name < c.ClusterManager.Clusters[j].Name })
+	if len(c.Servers) > 0 {
+		sc := &c.Servers[0]
+		sort.Slice(sc.Listeners, func(i, j int) bool { return sc.Listeners[i].Name < sc.Listeners[j].Name })
+		sort.Slice(sc.Routers, func(i, j int) bool { return sc.Routers[i].RouterConfigName < sc.Routers[j].RouterConfigName })
+		for _, rc := range sc.Routers {
+			sort.SliceStable(rc.VirtualHosts, func(i, j int) bool { return rc.VirtualHosts[i].Name < rc.VirtualHosts[j].Name })
+		}
 	}
-	return canonJSON(b)
+	return c
 }
 
 type rtResult struct {
 	Dump1, Dump2        []byte
 	Norm0, Norm1, Norm2 string
 	Items0, Items1      []item // named items of load j and of load (dump (load j))
+	Cfg0, Cfg1          v2.MOSNConfig // load j and load (dump (load j)), normalised
 }
 
 // item: a cluster, a router or a virtual host of a loaded configuration
@@ -270,6 +288,7 @@ func roundTrip(path, dir string) (*rtResult, string) {
 	res := &rtResult{}
 	res.Norm0 = normalised(cfg0)
 	res.Items0 = itemsOf(cfg0)
+	res.Cfg0 = normaliseCfg(cfg0)
 	configmanager.Reset()
 	cfg := configmanager.Load(path)
 	initEffective(cfg)
@@ -286,6 +305,7 @@ func roundTrip(path, dir string) (*rtResult, string) {
 	}
 	res.Norm1 = normalised(cfg1)
 	res.Items1 = itemsOf(cfg1)
+	res.Cfg1 = normaliseCfg(cfg1)
 	configmanager.Reset()
 	cfg = configmanager.Load(p1)
 	initEffective(cfg)
@@ -419,7 +439,21 @@ func genConfig(f *filler, r *Rng, dir string, n int) []byte {
 		fc := v2.FilterChain{}
 		f.fill(reflect.ValueOf(&fc).Elem(), 3, "chain")
 		// one TLS shape per chain (tls_context XOR tls_context_set); MarshalJSON prints TLSContexts when non-empty
-		switch r.Intn(3) {
+		switch r.Intn(5) {
+		case 3: // a single tls_context that is switched off but fully populated
+			fc.TLSContexts, fc.TLSConfigs = nil, nil
+			tc := v2.TLSConfig{}
+			f.fill(reflect.ValueOf(&tc).Elem(), 4, "disabled")
+			tc.Status = false
+			tc.CACert, tc.CertChain, tc.PrivateKey, tc.VerifyClient, tc.MinVersion = f.uniq("ca"), f.uniq("cert"), f.uniq("key"), true, "TLSv1_2"
+			fc.TLSConfig = &tc
+		case 4: // the same as a one-element tls_context_set (written through the JSON below: TLSConfigs)
+			fc.TLSContexts, fc.TLSConfig = nil, nil
+			tc := v2.TLSConfig{}
+			f.fill(reflect.ValueOf(&tc).Elem(), 4, "disabled")
+			tc.Status = false
+			tc.CACert, tc.CertChain, tc.PrivateKey, tc.VerifyClient, tc.MinVersion = f.uniq("ca"), f.uniq("cert"), f.uniq("key"), true, "TLSv1_2"
+			fc.TLSConfigs = []v2.TLSConfig{tc}
 		case 0:
 			fc.TLSContexts, fc.TLSConfigs = nil, nil
 		case 1:
@@ -607,10 +641,12 @@ func c19(args []string) int {
 	r := run.R
 	log.DefaultLogger.SetLogLevel(log.FATAL)
 	log.StartLogger.SetLogLevel(log.FATAL)
-	run.Sum.Rule = "documents: (a) every .json/.yaml/.yml under /repo/configs and /repo/examples that configmanager.Load and pkg/mosn's checks accept (the others are counted by reason); (b) path-mode boundary documents: item names of exactly {1,122,123,124,127,128,129,200} bytes (ASCII, with separators/dots/blanks, a rune straddling the cut, names ending in .json) for clusters and virtual hosts, and pairs mapped to one file (same 128-byte prefix; '/' against '_'); (c) documents generated from the configuration types: reflect-random v2.MOSNConfig made valid (one server, one filter chain per listener with one of the three TLS shapes, resolvable addresses, tcp/udp/upper-case/absent network, named and unnamed listeners, duplicate names, deprecated connection_manager routes, path (directory) mode routers/clusters in a scratch directory with item names of 1..200 bytes incl. '/', '.', blanks and multi-byte runes (the item files of the INPUT are written by the harness under neutral names), durations, byte sizes, per-filter config with nested numbers, extension configs), marshalled with the real marshalers. Each document goes through load -> effective config -> transferConfig -> load -> effective config -> transferConfig on the real code. A case is non-trivial when the document has at least one listener, cluster or router; distinct by document hash."
+	run.Sum.Rule = "documents: (a) every .json/.yaml/.yml under /repo/configs and /repo/examples that configmanager.Load and pkg/mosn's checks accept (the others are counted by reason); (b) path-mode boundary documents: item names of exactly {1,122,123,124,127,128,129,200} bytes (ASCII, with separators/dots/blanks, a rune straddling the cut, names ending in .json) for clusters and virtual hosts, and pairs mapped to one file (same 128-byte prefix; '/' against '_'); (c) documents generated from the configuration types: reflect-random v2.MOSNConfig made valid (one server, one filter chain per listener with one of the TLS shapes (none, tls_context, tls_context_set, and a switched-off but populated single tls_context / one-element tls_context_set), resolvable addresses, tcp/udp/upper-case/absent network, named and unnamed listeners, duplicate names, deprecated connection_manager routes, path (directory) mode routers/clusters in a scratch directory with item names of 1..200 bytes incl. '/', '.', blanks and multi-byte runes (the item files of the INPUT are written by the harness under neutral names), durations, byte sizes, per-filter config with nested numbers, extension configs), marshalled with the real marshalers. Each document goes through load -> effective config -> transferConfig -> load -> effective config -> transferConfig on the real code. A case is non-trivial when the document has at least one listener, cluster or router; distinct by document hash."
 	tmp := filepath.Join(run.Out, "c19dir")
 	os.MkdirAll(tmp, 0o755)
 	configmanager.VerifSetAutoWrite(false)
+	g := walkTypes("/repo")
+	sv := &semView{g: g}
 
 	check := func(kind, name, path string, replay interface{}) {
 		dir := filepath.Join(tmp, fmt.Sprintf("rt%d", run.Sum.Evaluations))
@@ -676,6 +712,16 @@ func c19(args []string) int {
 			d := jsonDiff(res.Norm1, res.Norm2)
 			run.Fail("second-reload-differs:"+pathClass(d), fmt.Sprintf("%s %s: load of the second dump differs from load of the first at %s", kind, name, d), replay)
 		}
+		if res.Norm0 == res.Norm1 && !lostAny {
+			// the two loaded configurations themselves (not their re-serialisation, which goes through the same marshalers):
+			// every field MOSN uses, shadow copies excluded
+			t0 := sv.tree(reflect.ValueOf(res.Cfg0), nil)
+			t1 := sv.tree(reflect.ValueOf(res.Cfg1), nil)
+			if d := treeDiff("", t0, t1); d != "" {
+				run.Fail("reload-changes-loaded-config:"+pathClass(d), fmt.Sprintf("%s %s: the configuration loaded from the dump differs from the loaded configuration at %s (both dumps are identical)", kind, name, d), replay)
+			}
+			run.Sum.Distribution["loaded-configs-compared"]++
+		}
 		if res.Norm0 != res.Norm1 && lostAny {
 			// already reported item by item
 		} else if res.Norm0 != res.Norm1 {
@@ -723,7 +769,6 @@ func c19(args []string) int {
 		check("generated", fmt.Sprintf("gen%d", i), p, map[string]interface{}{"seed": run.Seed, "index": i, "document": json.RawMessage(b)})
 	}
 	// ---------------- correspondence: the model of Marshal / Unmarshal against encoding/json on the real types
-	g := walkTypes("/repo")
 	custom := map[reflect.Type]bool{}
 	for _, st := range g.structs {
 		if st.Hook == "HkCustom" {
@@ -1192,12 +1237,84 @@ func effHistories(run *Run, r *Rng, tmp string, custom map[reflect.Type]bool) {
 		if err != nil {
 			continue
 		}
-		sh.Add(fmt.Sprintf("(mkEffCase [%s] %s %s)", strings.Join(wrapAll(ops), "; "), state, dj), map[string]interface{}{"kind": "eff-history", "ops": names})
+		sh.Add(fmt.Sprintf("(mkEffCase [%s] %s %s false)", strings.Join(wrapAll(ops), "; "), state, dj), map[string]interface{}{"kind": "eff-history", "ops": names})
 		run.Sum.Distribution["model:eff-history"]++
 		for _, n := range names {
 			run.Sum.Distribution["eff-op:"+n]++
 		}
 		if sh.Len() >= 8 {
+			sh.Close()
+			sh = run.NewShard(header, "eff_case", "eff_mismatches")
+		}
+	}
+	// the initialisation of loaded configurations, setter by setter (what initEffective does), in inline mode
+	for i := 0; i < run.N(14, 200); i++ {
+		path := filepath.Join(tmp, fmt.Sprintf("gen%d.json", i))
+		cfg, why := tryParse(path)
+		if cfg == nil || why != "" || acceptable(cfg) != "" || cfg.Mode() == v2.Xds || cfg.ClusterManager.ClusterConfigPath != "" {
+			continue
+		}
+		pathMode := false
+		for _, rc := range cfg.Servers[0].Routers {
+			if rc != nil && rc.RouterConfigPath != "" {
+				pathMode = true
+			}
+		}
+		if pathMode {
+			continue
+		}
+		configmanager.SetMosnConfig(&v2.MOSNConfig{})
+		configmanager.Reset()
+		var ops []string
+		ops = append(ops, "OSetMosn "+pv(reflect.ValueOf(cfg).Elem()))
+		configmanager.SetMosnConfig(cfg)
+		clusters, clusterMap := configmanager.ParseClusterConfig(cfg.ClusterManager.Clusters)
+		for _, c := range clusters {
+			ops = append(ops, "OSetCluster "+pv(reflect.ValueOf(&c).Elem()))
+			configmanager.SetClusterConfig(c)
+		}
+		for _, c := range clusters {
+			if hs, ok := clusterMap[c.Name]; ok {
+				ops = append(ops, "OSetHosts "+coqStr(c.Name)+" "+pv(reflect.ValueOf(&hs).Elem()))
+				configmanager.SetHosts(c.Name, hs)
+			}
+		}
+		sc := &cfg.Servers[0]
+		for idx := range sc.Listeners {
+			lc := configmanager.ParseListenerConfig(&sc.Listeners[idx], nil, nil)
+			if lc.Name == "" {
+				lc.Name = lc.Addr.String()
+			}
+			ops = append(ops, "OSetListener "+pv(reflect.ValueOf(lc).Elem()))
+			configmanager.SetListenerConfig(*lc)
+			if dr, err := configmanager.ParseRouterConfiguration(&lc.FilterChains[0]); err == nil && dr.RouterConfigName != "" {
+				ops = append(ops, "OSetRouter "+pv(reflect.ValueOf(dr).Elem()))
+				configmanager.SetRouter(*dr)
+			}
+		}
+		for _, rc := range sc.Routers {
+			if rc != nil && rc.RouterConfigName != "" {
+				ops = append(ops, "OSetRouter "+pv(reflect.ValueOf(rc).Elem()))
+				configmanager.SetRouter(*rc)
+			}
+		}
+		for _, e := range cfg.Extends {
+			rm := e.Config
+			ops = append(ops, "OSetExtend "+coqStr(e.Type)+" "+pv(reflect.ValueOf(&rm).Elem()))
+			configmanager.SetExtend(e.Type, e.Config)
+		}
+		state := pv(confValue())
+		dump, err := configmanager.VerifTransferConfig()
+		if err != nil {
+			continue
+		}
+		dj, err := sortedTransfer(dump)
+		if err != nil {
+			continue
+		}
+		sh.Add(fmt.Sprintf("(mkEffCase [%s] %s %s true)", strings.Join(wrapAll(ops), "; "), state, dj), map[string]interface{}{"kind": "eff-init-of-loaded", "doc": fmt.Sprintf("gen%d", i)})
+		run.Sum.Distribution["model:eff-init-of-loaded"]++
+		if sh.Len() >= 4 {
 			sh.Close()
 			sh = run.NewShard(header, "eff_case", "eff_mismatches")
 		}
@@ -1211,4 +1328,168 @@ func wrapAll(l []string) []string {
 		out[i] = "(" + s + ")"
 	}
 	return out
+}
+
+// ---------------------------------------------------------------------------------------------------------------
+// structural view of a loaded configuration: every exported field (json:"-" ones included), pointers followed,
+// nil and empty slices/maps identified, EXCEPT the shadow slots that a MarshalJSON overwrites before marshalling
+// (they are copies of the json:"-" fields that MOSN actually uses: FilterChainConfig.TLSConfig/TLSConfigs for
+// TLSContexts, ClustersJson for Clusters, the duration texts for the derived durations, ...).  Two loaded
+// configurations with the same view are the same configuration for MOSN.
+type semView struct {
+	g *graph
+}
+
+func (sv *semView) tree(v reflect.Value, skip [][]string) interface{} {
+	t := v.Type()
+	if t == rawMessageT {
+		if v.Len() == 0 {
+			return nil
+		}
+		return canonJSON(v.Bytes())
+	}
+	if t == durationCfT {
+		return v.Field(0).Int()
+	}
+	switch t.Kind() {
+	case reflect.Bool:
+		return v.Bool()
+	case reflect.Int, reflect.Int8, reflect.Int16, reflect.Int32, reflect.Int64:
+		return v.Int()
+	case reflect.Uint, reflect.Uint8, reflect.Uint16, reflect.Uint32, reflect.Uint64, reflect.Uintptr:
+		return v.Uint()
+	case reflect.Float32, reflect.Float64:
+		return v.Float()
+	case reflect.String:
+		return v.String()
+	case reflect.Ptr:
+		if v.IsNil() {
+			return nil
+		}
+		return sv.tree(v.Elem(), skip)
+	case reflect.Slice, reflect.Array:
+		if t.Elem().Kind() == reflect.Uint8 {
+			return fmt.Sprintf("%x", v.Bytes())
+		}
+		out := []interface{}{}
+		for i := 0; i < v.Len(); i++ {
+			out = append(out, sv.tree(v.Index(i), nil))
+		}
+		return out
+	case reflect.Map:
+		out := map[string]interface{}{}
+		for _, k := range v.MapKeys() {
+			out[fmt.Sprint(k.Interface())] = sv.tree(v.MapIndex(k), nil)
+		}
+		return out
+	case reflect.Interface:
+		if v.IsNil() {
+			return nil
+		}
+		if t == netAddrT {
+			return v.Interface().(net.Addr).String()
+		}
+		if t.NumMethod() == 0 {
+			b, err := json.Marshal(v.Interface())
+			if err != nil {
+				return "unmarshalable"
+			}
+			return canonJSON(b)
+		}
+		return "iface"
+	case reflect.Struct:
+		if t.Name() != "" && !inMosn(t) && t.PkgPath() != "mosn.io/api" {
+			if v.CanInterface() {
+				if tm, ok := v.Interface().(interface{ MarshalText() ([]byte, error) }); ok {
+					b, _ := tm.MarshalText()
+					return string(b)
+				}
+			}
+			return "foreign"
+		}
+		// shadow slots of this struct type, plus those inherited from the enclosing hooked struct
+		var here [][]string
+		here = append(here, skip...)
+		if st, ok := sv.g.byType[t]; ok {
+			here = append(here, st.Shadow...)
+		}
+		out := map[string]interface{}{}
+		for i := 0; i < t.NumField(); i++ {
+			sf := t.Field(i)
+			if sf.PkgPath != "" && !sf.Anonymous {
+				continue
+			}
+			var sub [][]string
+			skipped := false
+			for _, p := range here {
+				if len(p) > 0 && p[0] == sf.Name {
+					if len(p) == 1 {
+						skipped = true
+					} else {
+						sub = append(sub, p[1:])
+					}
+				}
+			}
+			if skipped {
+				continue
+			}
+			fv := v.Field(i)
+			// a shadow path may end inside a foreign leaf (DurationConfig.Duration): the leaf is the shadow
+			if fv.Type() == durationCfT && len(sub) > 0 {
+				continue
+			}
+			out[sf.Name] = sv.tree(fv, sub)
+		}
+		return out
+	}
+	return "kind:" + t.Kind().String()
+}
+
+// treeDiff: path of the first difference
+func treeDiff(p string, x, y interface{}) string {
+	switch xt := x.(type) {
+	case map[string]interface{}:
+		yt, ok := y.(map[string]interface{})
+		if !ok {
+			return p
+		}
+		keys := map[string]bool{}
+		for k := range xt {
+			keys[k] = true
+		}
+		for k := range yt {
+			keys[k] = true
+		}
+		var ks []string
+		for k := range keys {
+			ks = append(ks, k)
+		}
+		sort.Strings(ks)
+		for _, k := range ks {
+			xv, xo := xt[k]
+			yv, yo := yt[k]
+			if xo != yo {
+				return p + "." + k
+			}
+			if d := treeDiff(p+"."+k, xv, yv); d != "" {
+				return d
+			}
+		}
+		return ""
+	case []interface{}:
+		yt, ok := y.([]interface{})
+		if !ok || len(xt) != len(yt) {
+			return p + "[]"
+		}
+		for i := range xt {
+			if d := treeDiff(p+"[]", xt[i], yt[i]); d != "" {
+				return d
+			}
+		}
+		return ""
+	}
+	if !reflect.DeepEqual(x, y) {
+		return p
+	}
+	return ""
 }
